@@ -19,6 +19,26 @@ pub fn stream_case(case: &Value, dispatch: Dispatch, r: &mut Report) {
     }
     let props: Vec<&str> = case["props"].as_array().map(|a| a.iter().filter_map(|x| x.as_str()).collect()).unwrap_or_default();
     let b = bytes_of(&case["b"]);
+    if let (Some(vs), Some(mut t)) = (case["vs"].as_array(), crate::trace::TraceFile::open(case)) {
+        // writer run, then reader run on what the writer produced: both tables as the hooks saw them
+        let items: Vec<(&dyn TypeOps, &Value)> = types.iter().cloned().zip(vs.iter()).collect();
+        t.line(json!({"ev": "begin", "side": "w"}));
+        t.start();
+        let enc = stream_encode(&items);
+        let evs = t.stop();
+        crate::trace::table_events(&mut t, &evs);
+        t.line(json!({"ev": "end", "side": "w", "ok": enc.is_ok() as i32}));
+        if let Outcome::Ok(real) = &enc {
+            t.line(json!({"ev": "begin", "side": "r"}));
+            t.start();
+            let dec = stream_decode(&types, real);
+            let evs = t.stop();
+            crate::trace::table_events(&mut t, &evs);
+            t.line(json!({"ev": "end", "side": "r", "ok": dec.is_ok() as i32}));
+        }
+        t.flush();
+        r.count("traced_streams");
+    }
     if let Some(vs) = case["vs"].as_array() {
         r.count("stream_enc");
         let items: Vec<(&dyn TypeOps, &Value)> = types.iter().cloned().zip(vs.iter()).collect();
